@@ -88,7 +88,7 @@ E3 = 'stateless model checking of the real C code under a controlled cooperative
 CHECKS['C07'] = (E3, 'E3-vomp-schedule-explorer',
     'The six dtw_distances_*_parallel routines are compiled with gcc -fopenmp (outlined exactly as shipped) and -fsanitize=thread as an instrumentation pass, and linked against vomp, a virtual OpenMP runtime whose ucontext threads are '
     'scheduled by the explorer: every interleaving of scheduling points up to 2 (3) preemptions x T = 1..3 (4) x 5 dispatch kinds (static/dynamic/guided, chosen by the explorer) x blocks x 5 settings (default, window+psi+penalty, use_pruning, max_dist+psi, max_length_diff) must give output bitwise equal to the serial routine; '
-    'conflicting accesses found by a shadow map become additional scheduling points (two-phase). multiprocessing: a virtual Pool (pickled tasks, real chunking, all completion orders, P = 1..3) replaces multiprocessing.Pool; validated against the real Pool.',
+    'conflicting accesses found by a shadow map become additional scheduling points (two-phase). multiprocessing: a virtual Pool (pickled tasks, real chunking, all completion orders, P = 1..3; plus every order of a 4-series collection, so that each kind of pair is the first and a later member of a chunk whose options object is shared) replaces multiprocessing.Pool; validated against the real Pool.',
     'Trusted: vomp (sequentially consistent interleavings; libgomp itself and weak memory are out of scope), gcc outlining. Bounds: T <= 4, preemption bound <= 3, n <= 5.',
     'DESIGN.md section 3 E3a/E3b, section 4 C07')
 
@@ -104,7 +104,7 @@ CHECKS['C19'] = (E1, 'E1-input-config-explorer',
     'DESIGN.md section 4 C19')
 
 CHECKS['C13'] = (E1 + '; ' + E2, 'E1-input-config-explorer + E2-history-explorer',
-    'Every (query len 1..3, series len 1..5 (6)) pair over a 3-letter alphabet x 3 penalties x 48 iterator argument sets x both engines (ndim 1-2): matching function == brute force over all start points of the reference DTW / len(query); '
+    'Every (query len 1..3, series len 1..5 (6)) pair over a 3-letter alphabet x 3 penalties (and the None encoding of no penalty) x 48 iterator argument sets x both engines (ndim 1-2): matching function == brute force over all start points of the reference DTW / len(query); '
     'best match and every k-best match: path is a valid warping path over its segment whose cost realises the value; iterator: distinct ends, sorted values, length limits, no overlap, and no end position left out that no stated rule can exclude; engines agree. '
     'Histories up to depth 3 (4) over {align, matching_function, best_match, two interleaved iterators, reset} must answer like a fresh object.',
     'Trusted: vf/oracles.py DTW. After the first match whose equally optimal path differs between engines later masking may differ (not judged).',
@@ -117,7 +117,7 @@ CHECKS['C14'] = (E1 + '; ' + E2, 'E1-input-config-explorer + E2-history-explorer
 
 E5 = 'exhaustive exploration of all random outcomes through an explorer-owned choice tape (depth-first over the choice tree), virtual worker pool'
 CHECKS['C15'] = (E2 + ' (merge state machine monitored on every transition)', 'E2-history-explorer',
-    'The distance function is a stub serving EVERY upper-triangular distance table for n = 2..4 over {1,2,3,inf} and n = 5 over {1,2,inf} (ties, duplicates, infinite entries) x 4 max_dist values x {none, weight, order, both} hooks; '
+    'The distance function is a stub serving EVERY upper-triangular distance table for n = 2..4 over {1,2,3,inf} and n = 5 over {1,2,inf} (ties, duplicates, infinite entries) x 5 max_dist values (0 included) x {none, weight, order, both} hooks; '
     'each merge transition is checked through the public merge_hook (two live prototypes, distance = current minimum over live pairs, non-decreasing, <= max_dist) and the final state is checked to be a partition keyed by contained prototypes with no two prototypes within max_dist; '
     'HierarchicalTree well-formedness (n-1 rows, every node a child once; also wrapped around a model whose weight hook chooses the prototype), repeated fits, fit histories with a changed max_dist on the real distance function, LinkageTree == scipy linkage, and real dtw.distance_matrix (Python/C) on all small collections.',
     'Trusted: the monitor invariants are a transcription of C15; tie-breaking order is not prescribed and not compared.',
@@ -131,7 +131,7 @@ CHECKS['C16'] = (E5, 'E5-choice-tape-explorer',
 
 CHECKS['C12'] = (E1, 'E1-input-config-explorer',
     'Every collection of 1..3 short series x initial average x non-empty mask x window x penalty (ndim 1-2, list and matrix containers) through dba (Python), dba(use_c) and dtw_cc.dba/_ndim: ALL optimal warping paths of (average, series) are enumerated explicitly and the result must be the '
-    'per-position mean under some combination of them; value range; sum of squared reference DTW distances does not increase; engines agree when the optimal paths are unique; single-symbol changes of unselected series leave the result unchanged; dba_loop: <= max_it update steps, caller\'s c untouched, identical series are a fixed point, each step starts from the previous output, the result is the last output and kept averages are the step outputs; collections of 9, 10 (17) series with EVERY non-empty mask (the mask is a bit array in C).',
+    'per-position mean under some combination of them; value range; sum of squared reference DTW distances does not increase; engines agree when the optimal paths are unique; single-symbol changes of unselected series leave the result unchanged; dba_loop: <= max_it update steps, caller\'s c untouched, identical series are a fixed point, each step starts from the previous output, the result is the last output and kept averages are the step outputs, row- and column-major initial averages, each C step equals the same step on a row-major copy of its input; collections of 9, 10 (17) series with EVERY non-empty mask (the mask is a bit array in C).',
     'Trusted: vf/oracles.py explicit path enumeration (combination cap 4096, reported if hit). The probabilistic DBA is outside C12.',
     'DESIGN.md section 4 C12')
 CHECKS['C18'] = (E1 + '; ' + E2, 'E1-input-config-explorer + E2-history-explorer',
